@@ -34,3 +34,43 @@ def ungroom_ref(clsname, elem):
                 ch.tag = a
                 break
     return out
+
+
+# ---- the same reference over the abstract view used by the proofs: direct children as (tag, identity) pairs
+def groomed(clsname, kids):
+    out = []
+    renamed = False
+    for tag, ident in kids:
+        if clsname in RENAMES and not renamed and tag == RENAMES[clsname][0]:
+            tag = RENAMES[clsname][1]
+            renamed = True
+        out.append((tag, ident))
+    kept = []
+    for t, i in out:
+        if "." not in t:
+            kept.append((t, i))
+    return kept
+
+
+def ungroomed(clsname, kids):
+    out = []
+    renamed = False
+    for tag, ident in kids:
+        if clsname in RENAMES and not renamed and tag == RENAMES[clsname][1]:
+            tag = RENAMES[clsname][0]
+            renamed = True
+        out.append((tag, ident))
+    return out
+
+
+def kids_of(elem):
+    """direct children as (tag, identity); the harness numbers the children in their text ('t0', 't1', ...)"""
+    return [(c.tag, int(c.text[1:])) for c in elem]
+
+
+def _kids_model(it, a, kw):
+    return [(c.tag, int(c.label[1:].rstrip("'^"))) for c in a[0].kids]
+
+
+kids_of._pyvc_model = _kids_model
+kids_of._pyvc_always = True
